@@ -14,6 +14,10 @@ NA = {
 }
 
 CHECKS = {
+ "C14": dict(engine="K1", category="exploration", design="§4 C14",
+   technique="deterministic simulation of a two-party exchange: real client auth writers and real server authenticators joined by the in-process wire bridge in a synctest bubble; credential placements and compositions from the tape; token-in-body streamed in chunks",
+   text="The client's auth writers and the server's authenticators are never joined by the unit tests. Each run registers one scheme through the real security.* constructor (plain or context-aware) around a recording callback, builds a secured operation with required scopes, and performs one client call through the wire bridge whose credentials come from a tape-drawn composition of the real client writers placed as operation auth, default auth, both, or default with a pre-set Authorization header, plus bearer tokens in query and in a streamed urlencoded/multipart form body. A model of the effective transmitted credential (last writer wins per header, bearer precedence header>query>form, default-auth rule) predicts the callback's arguments, applies/not-applies, the principal identity seen by authenticator result and authorizer, status and the basic-auth realm challenge. Mostly seeded input sampling through a two-party system (said plainly).",
+   note="User names without ':'; tokens non-empty; header-borne strings without control characters or surrounding whitespace; urlencoded bodies under POST only."),
  "C04": dict(engine="K1", category="exploration", design="§4 C04",
    technique="deterministic simulation of a two-party exchange: real client transport and real server middleware built from one generated description, joined by an in-process wire bridge inside a synctest bubble with tape-driven body streaming and simulator-chosen map orders",
    text="Neither half's unit tests ever meet the other half. Here each run builds a server (untyped API + APIHandler) and a client call from the same tape-generated description and joins them by a bridge that uses net/http's real wire code (Request.Write → ReadRequest → handler → Response.Write → ReadResponse). Bodies are streamed: multipart writer goroutine → pipe → bridge pulls in tape-chosen chunks → server-side stream delivered to the binder in tape-chosen chunks; route build order, binder order, form/file order and path-substitution order are simulator-chosen permutations. Oracle: handler-received values == supplied values by declared type, and status/headers/decoded body at the response reader == what the handler returned. Mostly seeded input sampling through a two-party system (said plainly); the simulator makes the halves meet under streamed bodies and permuted orders.",
